@@ -57,16 +57,26 @@ func vdEnable() {}
 // C33: NewDate accepts exactly the Gregorian dates of the range, builds the documented
 // bit-packed representation, and the accessors return the fields.
 //
-//symgo:harness prop=C33 tier=quick arith=int timeout=300 ttimeout=1500 qtimeout=20000 shards=2 tshards=8 bounds=probe
+//symgo:harness prop=C33 tier=quick arith=int timeout=300 ttimeout=1500 qtimeout=60000 shards=2 tshards=4 bounds=valid_dates_of_years_1900..2099_(thorough_400..2999),_century_and_month_case-split;days_28..31_of_every_month_of_2023,2024,1900,2000;year_3000_edge;each_field_one_step_outside_its_range_(on_2024-02) outside=years_0..399;fields_far_outside_their_ranges
 func VerifC33New() {
 	vdEnable()
 	var y, m, d, h, mi, s, ms int
-	switch kind := rt.Pick("kind", 3); kind {
-	case 0: // every field inside its own range: the day-of-month rule decides
-		y = vdYear()
+	switch kind := rt.Pick("kind", 4); kind {
+	case 0: // any valid date of the century (quick: 1900s, 2000s; thorough: 400..2999)
+		c := 19 + rt.Pick("century", 2)
+		if rt.Thorough() {
+			c = 4 + rt.Pick("century_t", 26)
+		}
+		y = c*100 + rt.IntRange("yy", 0, 99)
 		m = rt.Pick("month", 12) + 1
 		d = rt.IntRange("day", 1, 31)
 		h, mi, s, ms = rt.IntRange("hour", 0, 23), rt.IntRange("minute", 0, 59), rt.IntRange("second", 0, 59), rt.IntRange("ms", 0, 999)
+		rt.Assume(d <= vdMonthLen(y, m))
+	case 3: // the day-of-month rule: days 28..31 of every month of a leap / non-leap / century year
+		y = []int{2023, 2024, 1900, 2000}[rt.Pick("year", 4)]
+		m = rt.Pick("month", 12) + 1
+		d = rt.IntRange("day", 28, 31)
+		h, mi, s, ms = rt.IntRange("hour", 0, 23), 0, 0, rt.IntRange("ms", 0, 999)
 	case 1: // one field just outside its range
 		y, m, d = 2024, 2, rt.IntRange("day", 1, 29)
 		h, mi, s, ms = rt.IntRange("hour", 0, 23), rt.IntRange("minute", 0, 59), rt.IntRange("second", 0, 59), rt.IntRange("ms", 0, 999)
@@ -175,7 +185,7 @@ func vdWalk(y, m, j int) (y2, m2, off int) {
 // first of the source month, falls into the month j months away, the result is that month's
 // day (day + k - days walked), same time of day. MinusDays inverts it.
 //
-//symgo:harness prop=C33 tier=quick arith=int timeout=300 ttimeout=1500 qtimeout=20000 shards=1 tshards=8 bounds=probe
+//symgo:harness prop=C33 tier=quick arith=int timeout=300 ttimeout=1700 qtimeout=60000 shards=2 tshards=8 bounds=source_any_valid_date_of_years_400..2999_(month_case-split);day_offsets_landing_in_the_previous,same_or_next_month_(|k|<=61);thorough:_up_to_14_months_away_(|k|<=440) outside=larger_day_offsets;several_offset_fields_at_once;years_0..399
 func VerifC33PlusDays() {
 	vdEnable()
 	y, m, d, h, mi, s, ms := vdSource()
@@ -225,8 +235,9 @@ func vdShiftDay(y, m, d, shift int) (y2, m2, d2 int) {
 // vdBoundaryDates: concrete dates around month, year, leap-day and range boundaries.
 var vdBoundaryDates = [][3]int{
 	{2023, 12, 31}, {2024, 1, 1}, {2024, 2, 28}, {2024, 2, 29}, {2024, 3, 1}, {2023, 2, 28},
-	{2100, 2, 28}, {2000, 2, 29}, {1999, 12, 31}, {2999, 12, 31}, {1970, 1, 1}, {2024, 6, 30},
+	{2100, 2, 28}, {2999, 12, 31},
 	// thorough only:
+	{2000, 2, 29}, {1999, 12, 31}, {1970, 1, 1}, {2024, 6, 30},
 	{1700, 1, 1}, {1900, 2, 28}, {1900, 3, 1}, {2000, 1, 1}, {2000, 12, 31}, {2038, 1, 19}, {2226, 12, 31},
 	{2227, 1, 1}, {2400, 2, 29}, {400, 1, 1}, {1, 1, 1}, {2024, 4, 30}, {2024, 7, 31}, {2024, 8, 1}, {2999, 12, 30},
 }
@@ -237,10 +248,10 @@ var vdBoundaryDates = [][3]int{
 // (With a symbolic date as well the solver does not decide the combined time and calendar
 // normalisation; symbolic dates are covered by VerifC33PlusDays.)
 //
-//symgo:harness prop=C33 tier=quick arith=int timeout=300 ttimeout=1500 qtimeout=60000 shards=4 tshards=8 bounds=probe
+//symgo:harness prop=C33 tier=quick arith=int timeout=300 ttimeout=1700 qtimeout=60000 shards=4 tshards=8 bounds=8_concrete_boundary_dates_(thorough_27);any_time_of_day;one_of_hours/minutes/seconds/ms_offset_up_to_+-2_days'_worth_(thorough_+-4) outside=symbolic_date_together_with_time_offsets_(solver_unknown);several_offset_fields_at_once;larger_offsets
 func VerifC33PlusTime() {
 	vdEnable()
-	nd := 12
+	nd := 8
 	span := 1
 	if rt.Thorough() {
 		nd, span = len(vdBoundaryDates), 3
@@ -289,7 +300,7 @@ func VerifC33PlusTime() {
 // is y2-y years, or 12*(y2-y)+(m2-m) months with m2 concrete); Gregorian normalisation: day d of
 // month (y2,m2) if that month has it, otherwise the overflow runs into the following month.
 //
-//symgo:harness prop=C33 tier=quick arith=int timeout=300 ttimeout=1500 qtimeout=20000 shards=4 tshards=8 bounds=probe
+//symgo:harness prop=C33 tier=quick arith=int timeout=300 ttimeout=1700 qtimeout=60000 shards=4 tshards=8 bounds=source_and_target_year_any_of_400..2999;source_month_case-split;years_offset_any;months_offset_=_12*(y2-y)+1_(thorough:_any_target_month) outside=month_offsets_to_other_target_months_in_quick;years_0..399;several_offset_fields_at_once
 func VerifC33PlusYearsMonths() {
 	vdEnable()
 	y, m, d, h, mi, s, ms := vdSource()
@@ -308,7 +319,7 @@ func VerifC33PlusYearsMonths() {
 		if rt.Thorough() {
 			m2 = rt.Pick("t_month", 12) + 1
 		} else {
-			m2 = (m+[]int{0, 1, 10}[rt.Pick("t_month", 3)])%12 + 1 // next, second next, previous month
+			m2 = m%12 + 1 // quick: the following month (of any target year)
 		}
 		r, ok = vdPlus(src, 0, 12*(y2-y)+(m2-m), 0, 0, 0, 0, 0)
 	}
@@ -337,7 +348,7 @@ func VerifC33PlusYearsMonths() {
 // C33: the julian day number is the reference day number plus a constant, so MinusDays is the
 // difference of reference day numbers for any two dates (years 400..2999, concrete months).
 //
-//symgo:harness prop=C33 tier=quick arith=int timeout=300 ttimeout=900 qtimeout=20000 shards=2 tshards=4 bounds=probe
+//symgo:harness prop=C33 tier=quick arith=int timeout=200 ttimeout=900 qtimeout=20000 shards=1 tshards=4 bounds=any_two_valid_dates_of_years_400..2999;first_month_case-split;second_month_in_{1,2,3,12}_(thorough_all) outside=years_0..399
 func VerifC33MinusDays() {
 	vdEnable()
 	y, m, d, h, mi, s, ms := vdSource()
@@ -391,7 +402,7 @@ func vdChrono(a, b [8]int) int {
 // C33: Compare orders dates (and timestamps: date, then the extra byte; a plain date counts as
 // extra 0) chronologically; any two valid dates of years 0..3000.
 //
-//symgo:harness prop=C33 tier=quick arith=int timeout=200 qtimeout=20000 shards=1 bounds=probe
+//symgo:harness prop=C33 tier=quick arith=int timeout=200 qtimeout=20000 shards=1 bounds=any_two_valid_dates_of_years_0..3000,_each_optionally_a_timestamp_with_extra_1..255 outside=none
 func VerifC33Compare() {
 	vdEnable()
 	y1, m1, d1, h1, mi1, s1, ms1 := vdAny("a_")
@@ -427,10 +438,10 @@ func VerifC33Compare() {
 // hhmm, hhmmss, hhmmssmmm) and a timestamp's text to the same timestamp. Concrete boundary
 // dates, symbolic time of day (the text form depends on the time fields only).
 //
-//symgo:harness prop=C33 tier=quick arith=int timeout=300 qtimeout=20000 shards=2 tshards=4 bounds=probe
+//symgo:harness prop=C33 tier=quick arith=int timeout=300 qtimeout=20000 shards=2 tshards=4 bounds=2_concrete_dates_(thorough_27);any_time_of_day_in_each_of_the_text_forms;timestamp_extra_1..255 ttimeout=1200 outside=symbolic_date_digits;ParseDate/Format
 func VerifC33Literal() {
 	vdEnable()
-	nd := 4
+	nd := 2
 	if rt.Thorough() {
 		nd = len(vdBoundaryDates)
 	}
@@ -466,7 +477,7 @@ func VerifC33Literal() {
 // C33: AddMs(k), 0 < k < 100, is the date k milliseconds later: on the fast path (no carry out
 // of the millisecond field) and on the fallback path (carry).
 //
-//symgo:harness prop=C33 tier=quick arith=int timeout=300 qtimeout=20000 shards=2 tshards=4 bounds=probe
+//symgo:harness prop=C33 tier=quick arith=int timeout=300 qtimeout=20000 shards=1 tshards=4 bounds=any_valid_date_of_years_400..2998_(month_case-split);k_1..99 outside=years_0..399
 func VerifC33AddMs() {
 	vdEnable()
 	y, m, d, h, mi, s, ms := vdSource()
